@@ -30,6 +30,8 @@
 (*                      h the shared sink s                                *)
 (*   Drop{s, h}         holder h died (dropped its reference to s)         *)
 (*   Create / OpenDone / Die / Q as above (no clause attached)             *)
+(*  Reset{kind}  (thorough tier only) the trace continues with a fresh,    *)
+(*               independent component instance; the machine starts afresh *)
 (*                                                                         *)
 (* Clauses (one per phrase of the property; not stricter):                 *)
 (*  C16.single    a connection is created only while the pool has no live  *)
